@@ -166,6 +166,28 @@ def suspects():
     ]
 
 
+def placement_suspects():
+    """an expression that is rejected only in the CODE-GENERATION phase (`-a ?= b`: `?=` needs a name on its left), and the
+    type `Self` outside a class, each placed in every kind of nested position: the error must come out as a diagnostic"""
+    out = []
+    bad = ["-a ?= b", "(a) ?= b", "!t ?= b"]
+    pre = "a = 5\nb: int? = 5\nt = true\nf3 = fn(x: int, y: bool, z: bool) -> int { return x }\nl: [bool...] = [true]\n"
+    holes = ["f3(1, %s, true)", "f3(1, true, %s)", "f3(f3(1, %s, true), true, true)", "[true, %s]", "[[true], [true, %s]]",
+             "map[str, bool] { \"k\": %s }", "true && %s", "(%s) || t", "l.push(%s)", "f3(1, true, true) + f3(2, %s, t)"]
+    for e in bad:
+        for i, h in enumerate(holes):
+            out.append(("placement:codegen-error %s in hole %d" % (e, i), pre + "print " + (h % e) + "\n"))
+            out.append(("placement:codegen-error %s in hole %d (assigned)" % (e, i), pre + "r = " + (h % e) + "\nprint r\n"))
+        out.append(("placement:codegen-error %s as condition" % e, pre + "if %s {\n  print 1\n}\nwhile %s {\n  break\n}\n" % (e, e)))
+        out.append(("placement:codegen-error %s returned" % e, pre + "g = fn() -> bool {\n  return %s\n}\nprint g()\n" % e))
+    for ty in ["Self", "Self?", "[Self...]", "[Self?...]", "map[str, Self]", "fn(Self) -> int", "fn() -> Self", "fn() -> Self?"]:
+        out.append(("placement:Self-outside-class %s variable" % ty, "x: %s = nil\nprint x\n" % ty))
+        out.append(("placement:Self-outside-class %s member" % ty, "x: %s = nil\nprint (get x).foo\nprint x.foo\nprint (x).foo()\n" % ty))
+        out.append(("placement:Self-outside-class %s parameter" % ty, "f = fn(p: %s) {\n  print (get p).foo\n  print p\n}\n" % ty))
+        out.append(("placement:Self-outside-class %s result" % ty, "f = fn() -> %s {\n  return nil\n}\nprint f()\n" % ty))
+    return out
+
+
 def breadth_suspects():
     """WIDE rather than deep inputs: long flat chains / sequences of one construct.  Their size is linear, so the
     compiler must answer within the time limit (an exponential pass over a left-nested chain shows here)"""
@@ -195,7 +217,7 @@ def build_inputs(ctx, gr, n_gen, n_mut, n_mutgen, n_grid=0):
     """-> list of cases {name, stream, files, entry}"""
     rng = ctx.rng
     cases = []
-    for name, text in suspects() + breadth_suspects():
+    for name, text in suspects() + breadth_suspects() + placement_suspects():
         cases.append({"name": name, "stream": "suspect", "files": {"main.ms": text}, "entry": "main.ms"})
     corpus = programs.corpus_from_tests() + programs.corpus_from_examples()
     for p in corpus:
